@@ -91,6 +91,12 @@ __wrap_poll(struct pollfd * fds, nfds_t nfds, int timeout)
 	}
 	if (nfds > 4096)
 		abort();
+	if (nfds > 0 && fds == NULL) {
+		/* what the kernel does with a NULL array; the token makes the trace unacceptable */
+		w_emit("P %d %d NULLFDS", timeout, (int)nfds);
+		errno = EFAULT;
+		return (-1);
+	}
 
 	/* arguments, sorted by descriptor */
 	for (i = 0; i < nfds; i++) {
